@@ -591,7 +591,8 @@ def part_corpus(ctx, cfgs):
     skipped = {}
     if ctx.tier == "quick":
         import zlib
-        always = ("regress/", "corpus/range_narrowing", "corpus/callback_storage", "corpus/callback_transient", "corpus/fallback_selectors")
+        always = ("regress/", "corpus/range_narrowing", "corpus/callback_storage", "corpus/callback_transient", "corpus/fallback_selectors",
+                  "corpus/fallback_zero_selectors", "corpus/zero_selectors_no_default")
         keep = []
         for job in jobs:
             h = zlib.crc32((job["name"] + ":" + str(ctx.seed)).encode())
@@ -641,6 +642,8 @@ def part_corpus(ctx, cfgs):
         if job.get("regress"):
             return True
         if ctx.tier == "quick":
+            if "selectors" in job["name"]:
+                return True       # dispatch tables differ per level/pipeline: the (small) selector contracts run everywhere
             return cfg.name in quick_set(job, 1 if job["name"].startswith("examples/") else 2)
         if job["name"].startswith("examples/"):       # thorough: the (large) examples under 40 rotating configurations
             import zlib
